@@ -11,7 +11,7 @@ import FranzVerif.Model.C29Client
                               advanced by the implementation's own answers
   scen start … | h events…    a history of the REAL client against the real kfake (harness/cmd/c29/scen.go);
                               model output `*` (batching and re-sends depend on timing); Spec = the chain monitor
-                              `Model.C29C.Mon` over every produce batch that reached the broker side, the kfake
+                              `Model.C29C.LMon` (the arrival form of `Mon`) over every produce batch that reached the broker side, the kfake
                               window spec `Spec.allows` over every answer, and the end-state checks (no data-loss
                               report, epoch bump or failed record without a broker-side reason; log = every record
                               exactly once, in order). Verdict keys: client-seq-chain, kfake-seq, client-dataloss,
@@ -42,7 +42,7 @@ def parseResp (ts : List String) : Option (Resp × Option Int) :=
 
 structure Scen where
   start : Int
-  mon : Model.C29C.Mon := {}
+  mon : Model.C29C.LMon := {}
   bad : Option String := none
   spec : Spec := {}
   hwm : Int := 0
@@ -139,6 +139,8 @@ def Scen.finish (s : Scen) : Scen :=
   else if s.dls > s.rejects then s.flag "client-dataloss"
   else if bumped && s.rejects == 0 then s.flag "client-dataloss"
   else if bumped || s.dls > 0 then s   -- the broker gave a reason: what the client does then is not this property's business
+  -- every record was delivered under one epoch: no batch is left aside that the chain never reached
+  else if !s.mon.done then s.flag "client-seq-chain"
   else if s.pf != some 0 then s.flag "client-dataloss"
   else
     match s.want with
